@@ -28,8 +28,10 @@ abbrev T : PErr → LR → Prop := fun _ _ => True
 /-- At most the byte under the cursor has been demanded. -/
 def Tight (lr : LR) : Prop := lr.v.peeked ≤ lr.v.pos + 1
 
-/-- Nothing behind the cursor has been demanded, or the end of the input has been observed. -/
-def Done (lr : LR) : Prop := (lr.v.peeked ≤ lr.v.pos ∨ lr.v.sawEnd = true) ∧ Tight lr
+/-- Nothing behind the cursor has been demanded, or the end of the input has been observed (by
+`eof`, which requires that no I/O error is parked). -/
+def Done (lr : LR) : Prop :=
+  (lr.v.peeked ≤ lr.v.pos ∨ (lr.v.sawEnd = true ∧ lr.v.ioErr = false)) ∧ Tight lr
 
 /-- Nothing was consumed. -/
 structure Same (lr lr1 : LR) : Prop where
@@ -479,7 +481,7 @@ theorem interactiveNewline_la :
 
 theorem eof_la :
     Wp T eof lr (fun r lr1 => Same lr lr1 ∧ (Tight lr → Tight lr1) ∧
-      (r.isSome = true → lr.v.rest[0]? = none ∧ lr1.v.sawEnd = true)) := by
+      (r.isSome = true → lr.v.rest[0]? = none ∧ lr1.v.sawEnd = true ∧ lr1.v.ioErr = false)) := by
   unfold eof
   refine Wp.bind' (Wp.reqByteF (Ext.refl lr)) ?_
   intro c lr1 ⟨e1, hc, p1, hse⟩
@@ -491,7 +493,9 @@ theorem eof_la :
     have hcn : c = none := by simpa using hnone
     refine Wp.bind (Wp.get ?_)
     split
-    · exact Wp.pure ⟨Same.of_ext e1, ht, fun _ => ⟨by rw [← hc]; exact hcn, hse hcn⟩⟩
+    · rename_i hio
+      exact Wp.pure ⟨Same.of_ext e1, ht,
+        fun _ => ⟨by rw [← hc]; exact hcn, hse hcn, by simpa using hio⟩⟩
     · exact Wp.pure ⟨Same.of_ext e1, ht, by simp⟩
   · exact Wp.pure ⟨Same.of_ext e1, ht, by simp⟩
 
@@ -509,10 +513,10 @@ theorem interactiveEndOfLine_la :
     obtain ⟨same, h1⟩ := hn rfl
     refine eof_la.mono ?_
     intro r2 lr2 ⟨same2, ht2, hs2⟩ hsome ht
-    obtain ⟨hnone, hse⟩ := hs2 hsome
+    obtain ⟨hnone, hse, hio⟩ := hs2 hsome
     rw [same.rest] at hnone
     rcases h1 ht with h | h
-    · exact ⟨Or.inr hse, ht2 h⟩
+    · exact ⟨Or.inr ⟨hse, hio⟩, ht2 h⟩
     · rw [h.1] at hnone; simp at hnone
 
 theorem orGiveUp_eol_la :
